@@ -269,3 +269,13 @@ Proof. vm_compute. reflexivity. Qed.
 (* a line that is not about a case of the batch is not feedback *)
 Example ex_other_line : read_line [a] (bs "listening: on port 1") = None.
 Proof. vm_compute. reflexivity. Qed.
+
+(* A server under test that exits with status 0 in the middle of its batch (c04.srvexit): the cases after
+   the exit end as set-up errors, so the run fails although every one of them is known-failing and would
+   have "failed as expected" had its request still been sent (setup_always_bad is the general statement). *)
+Example ex_server_exit_zero_mid_batch :
+  let cs := [mkRC (bs "B0/a") RWrong; mkRC (bs "B0/b") RWrong; mkRC (bs "B0/c") RWrong] in
+  let c := mkCfg 3 (fun _ => true) (fun _ => false) in
+  verdict c (run c (srvexit_ops cs 0)) false = false /\
+  verdict c (run c (map reply_op cs ++ [OFailRemaining (map rc_name cs) ENoOutcome])) false = true.
+Proof. vm_compute. auto. Qed.
